@@ -187,6 +187,20 @@ def match_sig(pattern, sig):
     return True
 
 
+def printed(out, tag):
+    """all tuples <<"tag", ...>> that a TLC run printed with PrintT (possibly over several lines)"""
+    from . import tlaval
+    res = []
+    for m in re.finditer(r'<<\s*"%s"' % re.escape(tag), out):
+        p = tlaval.P(out)
+        p.i = m.start()
+        try:
+            res.append(p.value())
+        except Exception:
+            continue
+    return res
+
+
 def ndjson_write(path, rows):
     with open(path, 'w') as f:
         for r in rows:
